@@ -4,7 +4,9 @@ CONSTANTS
   Slots = {0}
   GivenEpochs = {0}
   MaxBatch = 8
-INVARIANTS TypeOK DomainRight SigCorrect NoSignatureWithoutDomain ErrorHasNoSignatures
+  NReq = 3
+  ForkEpochs = {0}
+INVARIANTS TypeOK DomainRight Memoryless SigCorrect NoSignatureWithoutDomain ErrorHasNoSignatures
 CONSTRAINT HWM
 POSTCONDITION TraceAccepted
 CHECK_DEADLOCK FALSE
